@@ -134,7 +134,7 @@ def lz_len(eng, l, cap=None):
     ln = l.len()
     if not l.extra.get('lenb'):
         l.extra['lenb'] = True
-        eng.assume(ULE(ln, bv64(cap if cap is not None else eng.vec_cap)))
+        eng.assume(ULE(ln, bv64(cap if cap is not None else lz_cap(eng, l))))
     return ln
 def lz_cap(eng, l): return l.extra.get('cap', eng.vec_cap)
 def elem_ty(t, which='item'):
